@@ -69,6 +69,13 @@ pub enum E2Cmd {
     TransientRecv { i: usize, kind: u8 },
     PanicCallback { i: usize },
     Shutdown { i: usize },
+    /// n valid SYNs are waiting on server i's socket when the shutdown is requested: the request
+    /// must be served within a bounded number of handled datagrams (bounded fairness of the loop)
+    FloodShutdown { i: usize, n: u32 },
+    /// n valid SYNs are waiting on server i's socket and the reply to the first one is held by the
+    /// transport for one gossip interval, so a round is due while the backlog is still there: the
+    /// round must start within a bounded number of handled datagrams
+    FloodRound { i: usize, n: u32 },
     /// user code holds the state lock of server i for ms
     HoldLock { i: usize, ms: u64 },
     Inspect,
@@ -122,7 +129,16 @@ struct Net {
     last_send_ms: HashMap<SocketAddr, u64>,
     /// first datagram a server handed to its socket that does not decode (C19)
     garbled: Option<String>,
+    /// sends towards the synthetic probe address, per sender
+    probe_sends: HashMap<SocketAddr, u64>,
+    /// FloodRound in progress: (server, time from which a round is due, replies since then, closed by a SYN)
+    flood_watch: Option<(SocketAddr, u64, u64, bool)>,
 }
+
+/// more handled datagrams than this between a due event (shutdown request, gossip tick) and its
+/// service count as starvation; an unbiased three-way select misses 128 times in a row with
+/// probability below 1e-22
+const FAIRNESS_BOUND: u64 = 128;
 
 fn probe_addr() -> SocketAddr {
     "10.9.0.9:9009".parse().unwrap()
@@ -175,8 +191,18 @@ async fn sim_send(net_arc: &Arc<Mutex<Net>>, me: SocketAddr, to: SocketAddr, byt
             .unwrap_or(0);
         net.syn_at.entry((me, own_hb)).or_default().push(to);
     }
+    if let Some((who, due_from, replies, closed)) = net.flood_watch.as_mut() {
+        if *who == me && !*closed && now >= *due_from {
+            if kind == 0 {
+                *closed = true;
+            } else if to == probe_addr() {
+                *replies += 1;
+            }
+        }
+    }
     if to == probe_addr() {
         net.probe_replies += 1;
+        *net.probe_sends.entry(me).or_insert(0) += 1;
         return Ok(());
     }
     if bytes.len() > codec::MAX_DATAGRAM {
@@ -414,6 +440,8 @@ impl Run {
             probe_replies: 0,
             last_send_ms: HashMap::new(),
             garbled: None,
+            probe_sends: HashMap::new(),
+            flood_watch: None,
         }));
         let transport = SimTransport { net: net.clone() };
         let mut srv = Vec::new();
@@ -782,6 +810,92 @@ impl Run {
                     Ok(Err(e)) => Err(viol(self.step, "C19.shutdown_error", format!("server {i}: shutdown returned an error: {e}"))),
                     Err(_) => Err(viol(self.step, "C19.shutdown_hangs", format!("server {i}: shutdown did not complete within one gossip interval"))),
                 }
+            }
+            E2Cmd::FloodShutdown { i, n: count } => {
+                let excused_ms = if *i < n { self.excuse_budget(*i) } else { 0 };
+                let Some(s) = self.srv.get_mut(*i) else { return Ok(()) };
+                if s.ended {
+                    return Ok(());
+                }
+                let Some(h) = s.handle.take() else { return Ok(()) };
+                let me = addr(*i);
+                let flood = codec::encode(&Msg::Syn { digest: vec![], cluster: "c".into() }, BlockPlan::Auto { size: 16_384 });
+                let before = {
+                    let net = self.net.lock().unwrap();
+                    if let Some(tx) = net.inboxes.get(&me) {
+                        for _ in 0..(*count).min(2000) {
+                            let _ = tx.send(Inbox::Datagram(probe_addr(), flood.clone()));
+                        }
+                    }
+                    net.probe_sends.get(&me).copied().unwrap_or(0)
+                };
+                {
+                    let mut net = self.net.lock().unwrap();
+                    net.stats.inc("shutdown_requests");
+                    net.stats.inc("fault_backlog_at_shutdown");
+                }
+                self.nontrivial = true;
+                let r = tokio::time::timeout(Duration::from_millis(self.cfg.interval_ms + excused_ms + 5), h.shutdown()).await;
+                self.srv[*i].ended = true;
+                let handled = self.net.lock().unwrap().probe_sends.get(&me).copied().unwrap_or(0) - before;
+                match r {
+                    Ok(Ok(())) if handled > FAIRNESS_BOUND && excused_ms == 0 => Err(viol(
+                        self.step,
+                        "C19.shutdown_starved",
+                        format!("server {i}: {handled} waiting datagrams were answered after the shutdown request before it was served (bound {FAIRNESS_BOUND})"),
+                    )),
+                    Ok(Ok(())) => Ok(()),
+                    Ok(Err(e)) => Err(viol(self.step, "C19.shutdown_error", format!("server {i}: shutdown returned an error: {e}"))),
+                    Err(_) => Err(viol(self.step, "C19.shutdown_hangs", format!("server {i}: shutdown did not complete within one gossip interval"))),
+                }
+            }
+            E2Cmd::FloodRound { i, n: count } => {
+                let i = *i;
+                if i >= n || self.srv[i].ended || self.srv[i].handle.is_none() || self.excuse_budget(i) > 0 {
+                    return Ok(());
+                }
+                let me = addr(i);
+                // let the server drain what it has, then make sure its rounds send at least one SYN
+                tokio::time::sleep(Duration::from_micros(1)).await;
+                let h = self.srv[i].handle.as_ref().unwrap();
+                let Ok(has_target) = tokio::time::timeout(Duration::from_millis(self.cfg.interval_ms * 10), h.with_chitchat(|c| c.node_states().len() > 1 || !c.seed_nodes().is_empty())).await else {
+                    return Ok(());
+                };
+                if !has_target {
+                    return Ok(());
+                }
+                let interval = self.cfg.interval_ms;
+                let flood = codec::encode(&Msg::Syn { digest: vec![], cluster: "c".into() }, BlockPlan::Auto { size: 16_384 });
+                {
+                    let mut net = self.net.lock().unwrap();
+                    let now = net.now();
+                    net.stall_next.insert(me, interval);
+                    net.flood_watch = Some((me, now + interval, 0, false));
+                    if let Some(tx) = net.inboxes.get(&me) {
+                        for _ in 0..(*count).min(2000) {
+                            let _ = tx.send(Inbox::Datagram(probe_addr(), flood.clone()));
+                        }
+                    }
+                    net.stats.inc("fault_backlog_across_a_tick");
+                }
+                self.nontrivial = true;
+                let t = self.now() + interval + 3;
+                advance_to(&self.net, t).await;
+                let watch = self.net.lock().unwrap().flood_watch.take();
+                {
+                    // the stall armed above was consumed by the first reply; if the server sent nothing, disarm it
+                    self.net.lock().unwrap().stall_next.remove(&me);
+                }
+                if let Some((_, _, replies, _)) = watch {
+                    if replies > FAIRNESS_BOUND {
+                        return Err(viol(
+                            self.step,
+                            "C19.round_starved",
+                            format!("server {i}: {replies} waiting datagrams were answered after a gossip round became due and before the round started (bound {FAIRNESS_BOUND})"),
+                        ));
+                    }
+                }
+                Ok(())
             }
             E2Cmd::HoldLock { i, ms } => {
                 let excused_ms_pre = if *i < n { self.excuse_budget(*i) } else { 0 };
@@ -1205,6 +1319,14 @@ fn gen_cmds(seed: u64) -> (E2Cfg, Vec<E2Cmd>) {
                 0..=3 => E2Cmd::Dns { i, slots: if r2.chance(0.15) { None } else { Some(slots_for(&mut r2, i)) } },
                 4..=6 => E2Cmd::Advance { ms: *r2.pick(&[20_000u64, 61_000, 125_000, 301_000, 301_000]) },
                 _ => E2Cmd::SeedCheck { i },
+            }
+        } else if r2.chance(0.05) {
+            let i = r2.usize_below(n);
+            if r2.chance(0.35) && terminal_used < 2 {
+                terminal_used += 1;
+                E2Cmd::FloodShutdown { i, n: *r2.pick(&[3u32, 200, 400]) }
+            } else {
+                E2Cmd::FloodRound { i, n: *r2.pick(&[3u32, 200, 400]) }
             }
         } else if raw_udp && r2.chance(0.08) {
             E2Cmd::TransientRecv { i: r2.usize_below(n), kind: r2.below(3) as u8 }
